@@ -72,6 +72,42 @@ def obligations(tier, seed):
                       dfcc=dict(target=in_m, replace=[c_ge, c_le], contracts=contracts, harness='  %s t;\n  f_%s(t);' % (uc, in_m), must_have=['postcondition', 'precondition'], loops=False),
                       contract='stdx::in_range<%s>(%s t) == (min(%s) <= t <= max(%s)); verified against the cmp_greater_equal / cmp_less_equal contracts' % (ct, cu, ct, ct),
                       functions_under_contract=('au::stdx::in_range<%s,%s>' % (ct, cu),)))
+    # ---- classification and evaluation on boundary magnitudes: compile-time answers, checked as constants of the lowered code against
+    #      independently computed expectations (exact integer arithmetic here)
+    CT = {'i8': 'int8_t', 'u8': 'uint8_t', 'i16': 'int16_t', 'u16': 'uint16_t', 'i32': 'int32_t', 'u32': 'uint32_t', 'i64': 'int64_t', 'u64': 'uint64_t'}
+    facts = []
+    for rep in G.INT_REPS:
+        mx = G.tmax(rep)
+        facts.append(('rep_%s_max' % rep, 'au::representable_in<%s>(au::mag<%dULL>())' % (CT[rep], mx), 1))
+        if mx + 1 < (1 << 64): facts.append(('rep_%s_max1' % rep, 'au::representable_in<%s>(au::mag<%dULL>())' % (CT[rep], mx + 1), 0))
+        facts.append(('rep_%s_frac' % rep, 'au::representable_in<%s>(au::mag<3>() / au::mag<2>())' % CT[rep], 0))
+        facts.append(('val_%s_max' % rep, '(au::get_value<%s>(au::mag<%dULL>()) == %s)' % (CT[rep], mx, ('%dULL' % mx) if mx > (1 << 62) else '%dLL' % mx), 1))
+    facts += [('rep_u64_2_64', 'au::representable_in<uint64_t>(au::pow<64>(au::mag<2>()))', 0), ('rep_u64_2_63', 'au::representable_in<uint64_t>(au::pow<63>(au::mag<2>()))', 1),
+              ('rep_i64_2_63', 'au::representable_in<int64_t>(au::pow<63>(au::mag<2>()))', 0),
+              ('rep_f32_2_127', 'au::representable_in<float>(au::pow<127>(au::mag<2>()))', 1), ('rep_f32_2_128', 'au::representable_in<float>(au::pow<128>(au::mag<2>()))', 0),
+              ('rep_f32_1e38', 'au::representable_in<float>(au::pow<38>(au::mag<10>()))', 1), ('rep_f32_1e39', 'au::representable_in<float>(au::pow<39>(au::mag<10>()))', 0),
+              ('rep_f64_2_1023', 'au::representable_in<double>(au::pow<1023>(au::mag<2>()))', 1), ('rep_f64_2_1024', 'au::representable_in<double>(au::pow<1024>(au::mag<2>()))', 0),
+              ('rep_f64_1e308', 'au::representable_in<double>(au::pow<308>(au::mag<10>()))', 1), ('rep_f64_1e309', 'au::representable_in<double>(au::pow<309>(au::mag<10>()))', 0),
+              ('rep_f32_tiny', 'au::representable_in<float>(au::pow<-30>(au::mag<10>()))', 1),
+              ('is_int_12', 'au::is_integer(au::mag<12>())', 1), ('is_int_3_4', 'au::is_integer(au::mag<3>() / au::mag<4>())', 0),
+              ('is_rat_3_4', 'au::is_rational(au::mag<3>() / au::mag<4>())', 1), ('is_rat_pi', 'au::is_rational(au::Magnitude<au::Pi>{})', 0),
+              ('is_rat_sqrt2', 'au::is_rational(au::root<2>(au::mag<2>()))', 0), ('is_int_sqrt4', 'au::is_integer(au::root<2>(au::mag<4>()))', 1),
+              ('num_den', '(au::get_value<int>(au::numerator(au::mag<18>() / au::mag<12>())) == 3 && au::get_value<int>(au::denominator(au::mag<18>() / au::mag<12>())) == 2)', 1),
+              ('int_part', '(au::get_value<int>(au::integer_part(au::mag<18>() / au::mag<4>() * au::Magnitude<au::Pi>{})) == 9)', 1),
+              ('mag_eq', '(au::mag<6>() * au::mag<35>() == au::mag<210>())', 1), ('mag_ne', '(au::mag<6>() * au::mag<35>() == au::mag<211>())', 0),
+              ('val_f64_1000', '(au::get_value<double>(au::mag<1000>()) == 1000.0)', 1), ('val_f32_inv8', '(au::get_value<float>(au::mag<1>() / au::mag<8>()) == 0.125f)', 1),
+              ('val_i64_prod', '(au::get_value<int64_t>(au::pow<18>(au::mag<10>())) == 1000000000000000000LL)', 1)]
+    ws = []; checks = []
+    for (nm, expr, exp) in facts:
+        w = Wrapper('w_fact_' + nm, 'int32_t', [], 'constexpr bool vf_c = (%s); return (int)vf_c;' % expr)
+        ws.append(w); checks.append('  CHECK(%s() == %d, "%s");' % (w.name, exp, nm))
+    step = 12
+    for i in range(0, len(ws), step):
+        obs.append(Ob(id='C11.classification.%02d' % (i // step), prop='C11', group='C11.facts%d' % (i // step), prelude=PRE, wrappers=ws[i:i + step], inputs=[],
+                      body='\n' + '\n'.join(checks[i:i + step]) + '\n',
+                      contract='compile-time classification / evaluation on boundary magnitudes (constants of the lowered code vs independently computed answers): '
+                               + ', '.join(f[0] for f in facts[i:i + step]),
+                      functions_under_contract=('au::representable_in', 'au::get_value', 'au::is_integer', 'au::is_rational', 'au::numerator', 'au::denominator', 'au::integer_part')))
     # ---- guarded products: outcome OK ==> no multiplication wrapped / overflowed, no division by zero (own loop VCs, int-blast route)
     for (T, code, sgn) in ((('uint64_t', 'm', False), ('int64_t', 'l', True)) if tier == 'thorough' else (('uint64_t', 'm', False),)):
         tgt = '_ZN2au6detail15checked_int_powI%sEENS0_24MagRepresentationOrErrorIT_EES3_m' % code
